@@ -38,3 +38,17 @@ exception AuthFailure {
     2: optional string user (go.redact)
     3: optional string session (go.nolog)
 }
+
+// every visible field a scalar: the zap log is specified exactly (labels and values)
+struct Plain {
+    1: required string name
+    2: optional i32 count
+    3: optional string secret (go.redact)
+    4: required i64 stamp
+    5: optional bool flag
+    6: optional double ratio
+    7: required string hidden (go.nolog)
+    8: optional i16 small
+    9: optional i8 tiny
+    10: required bool on
+}
